@@ -27,7 +27,7 @@ MANIFEST = {
 }
 
 REQUIRED = ["KV.C11.out_sublist", "KV.C11.header_counts", "KV.C11.kept_iff_single", "KV.C11.copy_identity",
-            "KV.C11.kept_iff_union", "KV.C11.kept_iff_multi", "KV.C11.out_sublist_binary", "KV.C11.out_sublist_multiple", "KV.C11.header_counts_counter", "KV.C11.phrase_sound", "KV.C11.phrase_sound_max_order", "KV.C11.phrase_sound_multiple", "KV.C11.phrase_sound_union", "KV.C11.lowerBound_spec", "KV.C11.phrase_multi_correct",
+            "KV.C11.kept_iff_union", "KV.C11.union_value_or_zero_drops_first_sentence", "KV.C11.kept_iff_multi", "KV.C11.out_sublist_binary", "KV.C11.out_sublist_multiple", "KV.C11.header_counts_counter", "KV.C11.phrase_sound", "KV.C11.phrase_sound_max_order", "KV.C11.phrase_sound_multiple", "KV.C11.phrase_sound_union", "KV.C11.lowerBound_spec", "KV.C11.phrase_multi_correct",
             "KV.C11.phrase_union_correct", "KV.C11.phrase_end_to_end", "KV.C11.phrase_end_to_end_union", "KV.C11.phrase_search_eq_graph",
             "KV.C11.OldSearch.lowerBound_spec_fails_mutant", "KV.C11.OldSearch.multi_wrong_mutant",
             "KV.C11.context_option", "KV.C11.decode_equiv"]
